@@ -406,12 +406,16 @@ func main() {
 			for len(reg.Arrived) > 0 {
 				<-reg.Arrived
 			}
-			upScript := map[string]string{"ok": "ok", "retry503": "s503,ok", "close": "close", "aterm": "gate", "lterm": "ok"}[c.Env]
+			upScript := map[string]string{"ok": "ok", "retry503": "s503,ok", "close": "close", "aterm": "gate", "lterm": "ok",
+				"atermA": "gate", "atermB": "gate", "atermC": "gate"}[c.Env]
 			prefix := "/r/"
 			if c.Env == "close" {
 				prefix = "/p/"
 			}
 			hdr := map[string]string{"X-Token": tok, "X-Script": upScript}
+			if c.Env == "atermC" {
+				hdr["x-mosn-global-timeout"] = "150"
+			}
 			addr := laddr
 			method, body := "GET", ""
 			if c.Real != "" {
@@ -424,24 +428,43 @@ func main() {
 			vh.Must(err, "dial proxy")
 			vh.Must(cl.Send(method, prefix+"x?tok="+tok, hdr, body), "send")
 
-			if c.Env == "aterm" {
-				// the upstream holds the request: terminate the stream through a filter's handler meanwhile
+			diverged := false
+			if c.Env == "aterm" || c.Env == "atermA" || c.Env == "atermB" || c.Env == "atermC" {
+				// the upstream holds the request: terminate the stream through a filter's handler meanwhile.
+				//   aterm  : while the upstream is silent
+				//   atermA : the upstream answers, its answer is held before the proxy's response CAS (gate us.recv.guard)
+				//   atermB : the upstream's answer won, the woken worker is held (gate ds.woken)
+				//   atermC : the global timeout (150 ms) won the response CAS, its callback is held (gate ds.gtimer.cas)
+				holdAt := map[string]string{"atermA": "us.recv.guard", "atermB": "ds.woken", "atermC": "ds.gtimer.cas"}[c.Env]
+				if holdAt != "" {
+					sched.Hold(holdAt)
+				}
 				arrived := false
+				var att int
 				select {
 				case a := <-reg.Arrived:
 					arrived = a.Token == tok
+					att = a.Attempt
 				case <-time.After(8 * time.Second):
 				}
 				st.mu.Lock()
 				h := st.handler
 				st.mu.Unlock()
-				if arrived && h != nil {
+				ready := arrived && h != nil
+				if ready && holdAt != "" {
+					if c.Env != "atermC" {
+						reg.Release(tok, att) // the upstream answers now
+					}
+					ready = sched.AwaitArrive(holdAt, 8*time.Second)
+				}
+				if ready {
 					if !h.TerminateStream(asyncCode) { // success is recorded through the ds.hijack hook event
 						tr.Emit(vh.Ev{"ev": "aterm", "ok": false})
 					}
 				} else {
-					tr.Emit(vh.Ev{"ev": "note", "what": "aterm-not-possible", "arrived": arrived})
+					diverged = true
 				}
+				sched.ReleaseAll()
 			}
 			// every request ends with ds.clean (after the reply was written, or without reply when a filter terminated it)
 			sawNew := func() uint64 {
@@ -517,6 +540,10 @@ func main() {
 			foreign := atomic.LoadInt64(&streams) > 1
 			if foreign {
 				tr.Emit(vh.Ev{"ev": "note", "what": "contaminated", "streams": atomic.LoadInt64(&streams)})
+			} else if diverged {
+				// the guided schedule could not be forced (gate not reached in time): the run says nothing about the case
+				tr.Emit(vh.Ev{"ev": "note", "what": "contaminated", "diverged": true})
+				foreign = true
 			}
 			if rid != 0 {
 				atomic.StoreUint64(&minRid, rid+1)
